@@ -56,6 +56,9 @@ class MintProgram(Program):
             a[1].store(x)
             return []
 
+        from .stdmodel import install_std_models
+        install_std_models(self)
+
     def one(self, name, pred=None):
         c = [f for f in self.fn.get(name, []) if pred is None or pred(f)]
         if len(c) != 1:
